@@ -170,3 +170,109 @@ def run_c11(prop, tier):
     write_evidence(prop, tier, "model_checking", cov, time.time() - t0, violations=len(verdict["violations"]),
                    assumptions=["delete followed by re-insert of the same row is outside the model (the implementation rejects it)"])
     return verdict
+
+
+# ------------------------------------------------------------------ C08 (part A: cache and select)
+COND_FILES = ["Values.tla", "Schema.tla", "Cond.tla", "MC_Cond.tla", "TraceCond.tla"]
+
+
+def cond_key(ev):
+    return {"rows": ev["rows"], "conds": ev["conds"], "group": ev["group"], "idxcfg": ev["idxcfg"], "via": ev["via"], "mode": ev["mode"]}
+
+
+def cond_corrupt(trace):
+    for ev in trace:
+        if ev["err"] == "" and len(ev["uuids"]) >= 1:
+            bad = json.loads(json.dumps(ev))
+            bad["uuids"] = bad["uuids"][1:]
+            return bad
+    return None
+
+
+def _cond_validate(vh, cases, corrupt=None):
+    import shutil
+    nsh = min(NCPU, max(1, len(cases) // 60))
+    shards = [cases[i::nsh] for i in range(nsh)]
+
+    def one(sh):
+        with Scratch("cond") as sc:
+            shutil.copy(os.path.join(VERIF, "schemas", "cond.abs.json"), sc.path("schema.abs.json"))
+            with open(sc.path("cases.ndjson"), "w") as f:
+                for c in sh:
+                    f.write(json.dumps(c) + "\n")
+            rc, o, e = run([vh, "cond-cases", "-cases", sc.path("cases.ndjson"), "-o", sc.path("trace.ndjson")], timeout=3000)
+            if rc != 0:
+                raise Broken("vh cond-cases failed: " + e[-3000:])
+            trace = [json.loads(l) for l in open(sc.path("trace.ndjson")) if l.strip()]
+            selfline = 0
+            if corrupt is not None:
+                bad = corrupt(trace)
+                if bad is not None:
+                    trace.append(bad)
+                    selfline = len(trace)
+                    with open(sc.path("trace.ndjson"), "a") as f:
+                        f.write(json.dumps(bad) + "\n")
+            copy_spec(sc.dir, COND_FILES)
+            open(sc.path("T.cfg"), "w").write("SPECIFICATION Spec\nCHECK_DEADLOCK FALSE\n")
+            rc, out, wall = run_tlc(sc.dir, "TraceCond.tla", cfg="T.cfg", workers=1, timeout=3000)
+            done = tlc_prints(out, "TRACE-COMPLETE")
+            if rc != 0 or not done:
+                raise Broken("TraceCond validation did not complete:\n" + out[-3000:])
+            mm = tlc_prints(out, "MISMATCH")
+            if selfline:
+                if not any(m["line"] == selfline for m in mm):
+                    raise Broken("TraceCond accepted a deliberately corrupted event: the trace specification does not bind")
+                mm = [m for m in mm if m["line"] != selfline]
+            gen, dist = tlc_stats(out)
+            return {"events": len(trace) - (1 if selfline else 0), "states": dist, "transitions": gen, "selftest": bool(selfline),
+                    "cases": [{"mismatch": m, "key": cond_key(trace[m["line"] - 1])} for m in mm],
+                    "sample": trace[len(trace) // 3] if trace else None}
+    return pmap(one, shards)
+
+
+def cond_confirm(vh):
+    def confirm(case):
+        k = case["key"]
+        rows = [dict(present=True, **k["rows"]["u%d" % (i + 1)]) for i in range(len(k["rows"]))]
+        res = _cond_validate(vh, [{"t": "replay", "rows": rows, "conds": k["conds"]}])
+        got = [c["mismatch"] for r in res for c in r["cases"] if c["key"] == k and c["mismatch"]["what"] == case["mismatch"]["what"]]
+        return got, None
+    return confirm
+
+
+def run_c08(prop, tier):
+    import shutil
+    t0 = time.time()
+    vh = build_vh()
+    with Scratch("cemit") as sc:
+        copy_spec(sc.dir, COND_FILES)
+        shutil.copy(os.path.join(VERIF, "schemas", "cond.abs.json"), sc.path("schema.abs.json"))
+        open(sc.path("MC.cfg"), "w").write("SPECIFICATION Spec\nCHECK_DEADLOCK FALSE\n")
+        rc, out, wall = run_tlc(sc.dir, "MC_Cond.tla", cfg="MC.cfg", workers=1, timeout=1800)
+        if "Model checking completed. No error has been found." not in out:
+            raise Broken("MC_Cond failed:\n" + out[-3000:])
+    cases = tlc_prints(out, "CASE")
+    total = len(cases)
+    if tier == "quick":
+        rnd = random.Random(seed())
+        single = [c for c in cases if c["t"] == "single"]
+        rest = [c for c in cases if c["t"] != "single"]
+        rnd.shuffle(rest)
+        cases = single + rest[:500]
+    res = _cond_validate(vh, cases, corrupt=cond_corrupt)
+    import checks_api
+    api = checks_api.cond_api(vh, tier)
+    allcases = [c for r in res for c in r["cases"]] + api["cases"]
+    verdict = findings.adjudicate(prop, allcases, lambda c: (checks_api.cond_api_confirm(vh)(c) if c["key"].get("via", "").startswith("api") else cond_confirm(vh)(c)))
+    cov = {"states": sum(r["states"] for r in res) + api["states"], "transitions": sum(r["transitions"] for r in res) + api["transitions"],
+           "traces_validated_against_impl": len(res) + api["traces"], "cases_enumerated": total, "cases_replayed": len(cases),
+           "selections_validated": sum(r["events"] for r in res), "api_selections_validated": api["events"],
+           "binding_selftest_rejected": all(r["selftest"] for r in res),
+           "samples": [r["sample"] for r in res[:2] if r["sample"]], "known_findings_seen": verdict["known"],
+           "rule": "TLC enumerates, per column kind, every (function, argument) with a table holding one row per value of the kind, all "
+                   "ordered pairs of a 32-condition pool and 800 triples over a 4-row table; each case is evaluated by RowsByCondition under 7 "
+                   "index configurations and by select in a transaction, for integer/string/uuid/real columns; TLC compares with Cond!Select; "
+                   "the conditional API (Where/WhereAll/WhereAny List and the operations they generate) is validated on a synchronised client"}
+    write_evidence(prop, tier, "model_checking", cov, time.time() - t0, violations=len(verdict["violations"]),
+                   assumptions=["column values instantiated from an integer universe per column type"])
+    return verdict
